@@ -202,9 +202,10 @@ CHECKS = {
             {"module": "rueidis", "scenario": "breakage", "variant": "enum:stall", "quick": 1024, "thorough": 25600},
             {"module": "rueidis", "scenario": "breakage", "variant": "enum:close", "quick": 1024, "thorough": 25600},
         ],
-        "expected_probes": ["fault-with-call-in-flight", "client-closed-during-run"],
+        "expected_probes": ["silent-peer-detected-by-keep-alive", "fault-with-call-in-flight", "client-closed-during-run"],
         "components": {"real": REAL, "stubs": STUBS},
         "assumptions": [
+            "a peer that goes silent (no EOF, no error): in half of the plans that contain one, the dedicated connection of a Receive that follows a blocking pop answered with nil is stalled for a minute once its subscription is confirmed; with KeepAlive 1 s the keep-alive ping must end that Receive with an error within KeepAlive + ConnWriteTimeout + 5 s of fake time (rule silent-peer-not-detected), its own deadline being 40 s",
             "with retries enabled a read-only call may legitimately be re-sent and succeed; 'returns an error' is therefore judged through 'a returned value must be the call's own reply'",
             "an idle connection that died silently is only noticed on use: the first fresh calls after healing may each burn one dead connection; the last of six must be served",
             "after Close a call may return its own context error instead of ErrClosing",
